@@ -60,6 +60,20 @@ def run(tier, seed):
         json.dump({"property": "C04", "engine": "wbuild", "label": "asm/valid-module-is-assembled", "function": fn, "error": err, "wat": wat,
                    "cmd": "assemble the text in 'wat' with the tree's wat2wasm (go run ./internal/zzverif/wbuild wat2wasm in.wat out.wasm under the check's overlay)"}, open(rp, "w"), indent=1)
         c.violations.append((key, rp))
+    # every assembled module must be accepted by the vendored engine's decoder and validator
+    bad = vlib.build_wasm_keepgoing(c.scratch, ov, [["validate", os.path.join(wdir, n + ".wasm")] for n in mods])
+    for i, err in bad.items():
+        key = "validate/%s/asm/output-is-a-valid-binary" % mods[i]
+        if key in c.known:
+            c.known_hits.append((key, c.known[key]))
+            continue
+        rdir = os.path.join(vlib.VERIF, "replays", "C04")
+        os.makedirs(rdir, exist_ok=True)
+        rp = os.path.join(rdir, _re.sub(r"[^A-Za-z0-9_.-]", "_", key) + ".json")
+        json.dump({"property": "C04", "engine": "wbuild", "label": "asm/output-is-a-valid-binary", "function": mods[i], "error": err,
+                   "wat": open(os.path.join(wdir, mods[i] + ".wat")).read(), "validate": True,
+                   "cmd": "assemble the text in 'wat' with the tree's wat2wasm and load the result with the vendored wazero (wbuild validate)"}, open(rp, "w"), indent=1)
+        c.violations.append((key, rp))
     skip = set(fn for _, fn, _, _ in asm_violations)
     vlib.REPLAY_ENV["VF_WASM_DIR"] = wdir
     c.extra_cov["programs"] = len(ops)
@@ -78,8 +92,9 @@ def replay(path):
         ov = vlib.make_overlay(sc, [{"dir": WB, "name": "main", "rt": False}])
         wat = os.path.join(sc, "in.wat")
         open(wat, "w").write(rec["wat"])
-        failed = vlib.build_wasm_keepgoing(sc, ov, [["wat2wasm", wat, os.path.join(sc, "out.wasm")]])
-        print(failed.get(0, "assembled without error"))
+        steps = [["wat2wasm", wat, os.path.join(sc, "out.wasm")]] + ([["validate", os.path.join(sc, "out.wasm")]] if rec.get("validate") else [])
+        failed = vlib.build_wasm_keepgoing(sc, ov, steps)
+        print("; ".join("%s: %s" % (steps[k][0], e) for k, e in failed.items()) or "assembled (and validated) without error")
         print("REPRODUCED" if failed else "NOT-REPRODUCED")
         return 1 if failed else 0
     finally:
